@@ -285,9 +285,9 @@ def rule_t1(ctx: Ctx) -> None:
         if meth in LABELS[label]:
             ctx.ok("C11-T1", where, f"{label!r} -> Perm.{meth}")
         elif meth in known_methods:
-            ctx.violation("C11-T1", where, node, f"label {label!r} is bound to Perm.{meth}, which the reference table knows as {known_methods[meth]!r}", file=ps.module.relpath)
+            ctx.violation("C11-T1", where, node, f"label {label!r} is bound to Perm.{meth}, which the reference table knows as {known_methods[meth]!r}", file=ps.module.relpath, robust=True)
         elif meth in OTHER_CONCEPTS:
-            ctx.violation("C11-T1", where, node, f"label {label!r} is bound to Perm.{meth}, which computes the {OTHER_CONCEPTS[meth]}", file=ps.module.relpath)
+            ctx.violation("C11-T1", where, node, f"label {label!r} is bound to Perm.{meth}, which computes the {OTHER_CONCEPTS[meth]}", file=ps.module.relpath, robust=True)
         else:
             ctx.note(f"C11-T1 unreviewed: {label!r} -> Perm.{meth} (method unknown to the reference: renamed?)")
             ctx.ok("C11-T1", where, f"{label!r} -> Perm.{meth} (unreviewed method name)")
@@ -820,7 +820,7 @@ def generator_or_skeleton(ctx: Ctx, fi: FuncInfo, specs: List[str], what: str, r
             if has_unrecognised(impl):
                 continue
             if edit_distance(impl, s, 1) == 1 or (same_atoms(impl, s) and prop_equivalent(impl, s, ctx.repo) is False):
-                ctx.violation(rule, fi, fi.node, f"{what}: implementation selects  {show(impl)[:200]}  but the definition is  {show(s)[:200]}")
+                ctx.violation(rule, fi, fi.node, f"{what}: implementation selects  {show(impl)[:200]}  but the definition is  {show(s)[:200]}", robust=True)
                 return
         raise AnalysisError(f"{fi.where}: cannot compare with the definition ({what})")
     specs2 = [s for s in specs if not s.strip().startswith("for ")]
@@ -1011,7 +1011,7 @@ def rule_l1(ctx: Ctx) -> None:
                 par = [m for m in walk_no_nested(fi.node) if isinstance(m, ast.Attribute) and m.value is node]
                 used = bool(par)
             if used:
-                ctx.violation("C11-L1", fi, st, f"`{unparse(node)[:80]}` keeps the original values of a subset of the entries (not a permutation of 0..k-1) and Perm methods are then called on it; the scans that use len(self) / -1 as sentinels give wrong answers on it", tag="unstandardised-sub-permutation")
+                ctx.violation("C11-L1", fi, st, f"`{unparse(node)[:80]}` keeps the original values of a subset of the entries (not a permutation of 0..k-1) and Perm methods are then called on it; the scans that use len(self) / -1 as sentinels give wrong answers on it", tag="unstandardised-sub-permutation", robust=True)
             else:
                 ctx.ok("C11-L1", fi.where, f"`{unparse(node)[:60]}`: no Perm method is called on the un-standardised value", st, fi)
     if n < 3:
